@@ -139,7 +139,7 @@ func c17sBody(t *testing.T, im *c17sImage, ops []string) sched.Body {
 		return func(x *sched.Exec) {
 			v := &Verdict{}
 			x.Obs = v
-			// One shape is told apart (it exists on the unchanged tree, F25): a request of
+			// One shape is told apart (F25, repaired by 2a4cf43): a request of
 			// the pair failed when its storage transaction was committed (it had begun
 			// before the other request committed), after it had already changed the cached
 			// key in memory.
